@@ -26,14 +26,23 @@ enum StepOut {
 }
 
 fn buf_op<E: std::fmt::Debug>(ctx: &mut Ctx, name: &str, f: impl FnOnce(&mut Vec<u8>) -> Result<(), E>, exp: Edit, info: &dyn Fn() -> String) -> StepOut {
-    let mut out = Vec::new();
+    // the result is appended behind an earlier row (documents stored back to back)
+    const ROW: [u8; 12] = [0x80, 0, 0, 1, 0x20, 0, 0, 2, 0x50, 7, 0xAA, 0x55];
+    let mut out = ROW.to_vec();
     match guard(|| f(&mut out)) {
         Err(p) => {
             ctx.panic_violation(name, &p, info);
             StepOut::Nothing
         }
         Ok(Ok(())) => match exp {
-            Edit::Ok(t) => StepOut::Docs(vec![(out, t)]),
+            Edit::Ok(t) => {
+                if out.len() < ROW.len() || out[..ROW.len()] != ROW {
+                    ctx.violation(&format!("{}/earlier-row-modified", name), || format!("the buffer held {} ; after the call {} ; {}", hex(&ROW), hex(&out), info()));
+                    return StepOut::Nothing;
+                }
+                let out = out.split_off(ROW.len());
+                StepOut::Docs(vec![(out, t)])
+            }
             Edit::Err(e) => {
                 ctx.violation(&format!("{}/ok-expected-documented-error", name), || format!("expected {} ; {}", e, info()));
                 StepOut::Nothing
@@ -370,6 +379,22 @@ pub fn run(ctx: &mut Ctx) {
                 let t = Tree::obj_from(members);
                 pool.push(Live { bytes: refcodec::encode(&t), tree: t });
             }
+        }
+        if ctx.case_no % 13 == 9 {
+            // elements of different kinds that are stored as the same payload bytes (the number 65
+            // is stored as the two bytes of the string "PA")
+            let v = 0x20 + rng.below(0x5f) as u64;
+            let twins = Tree::Arr(vec![Tree::Str(format!("P{}", v as u8 as char)), Tree::Num(crate::tree::Num::U(v)), Tree::Num(crate::tree::Num::U(0)), Tree::Str("\u{0}".into()), Tree::Num(crate::tree::Num::U(v)), Tree::Str(format!("P{}", v as u8 as char))]);
+            pool.push(Live { bytes: refcodec::encode(&twins), tree: twins });
+        }
+        if ctx.case_no % 13 == 7 && !ctx.miri {
+            // a long array and a short one holding some of its elements in another order,
+            // some of them twice
+            let n = 33 + rng.below(40);
+            let long = Tree::Arr((0..n).map(|k| Tree::Num(crate::tree::Num::U(k as u64))).collect());
+            let short = Tree::Arr((0..(3 + rng.below(8))).map(|_| if rng.chance(1, 6) { Tree::Str("x".into()) } else { Tree::Num(crate::tree::Num::U(rng.below(n) as u64)) }).collect());
+            pool.push(Live { bytes: refcodec::encode(&long), tree: long });
+            pool.push(Live { bytes: refcodec::encode(&short), tree: short });
         }
         let mut shared: (Vec<u8>, Vec<u64>) = (Vec::new(), Vec::new());
         let steps = rng.below(46) + 5;
